@@ -34,6 +34,11 @@ CHECKS = {
              note="Trusted: the explained() vocabulary/regex for 'names the method or structure', the oracle for cert, isolation by process (death/timeout observed by the parent)."),
  "C05": dict(tech="TLA+ history model Path.tla (TLC -simulate generates entry-point x operation histories, invariant WarmSound) replayed on the real entry points; every BaseSolver.solve inside a history is traced and judged by the SolverTrace monitor against the problem of THAT step (clauses cert, buffer); sentinels from CDCore counterexamples",
              text="Histories of direct solves reusing buffers, path() over grids in every order from every coef_init shape, and warm_start refits after hyper-parameter changes are generated by TLC and executed; TLC judges each step's certificate against its own alpha and the consistency of the caller's buffers on return.", ref="6 C05"),
+ "C19": dict(tech="TLA+ placement model Degenerate.tla (TLC -simulate) + permanent sentinel placements; real runs in isolated workers; SolverTrace monitor clauses finite, cert, zero_col_zero, explained_error, terminates, alive",
+             text="TLC generates placements of zero / duplicated / constant / rescaled columns, zero or constant targets, n<p, single feature or group across solver compositions and storages; every run is watched for hangs and judged by TLC.", ref="6 C19"),
+ "C20": dict(tech="TLA+ index model Bounds.tla (design constants satisfy InBounds; historical slicing conventions must violate it) + every scenario executed twice in fresh processes, with numba's bounds checker and without; RelTrace facts no_index_error, same_result",
+             text="Index expressions of kernels are model-checked on lengths; real compositions (TLC-generated scenarios + sentinels from the model's counterexamples) run under NUMBA_BOUNDSCHECK=1 and unchecked, and TLC judges the pair.", ref="6 C20",
+             note="Trusted: numba's own bounds checker; process isolation. Compositions with randomly started power-method constants are compared for errors only."),
 }
 NA = []
 checks = []
